@@ -239,7 +239,7 @@ theorem C09_probe_shape (svc : Svc) :
   open Zc.GenFacts.Register in
   simp [probePkt, Svc.ptr, mkRec, unique_inUnique, class_inUnique, typePtr_eq]
 
-/-! ### the conflicting name as an owner name (known finding D15, `C09:server-none-keeps-conflicting-host-name`) -/
+/-! ### the conflicting name as an owner name (known finding D16, `C09:server-none-keeps-conflicting-host-name`) -/
 
 /-- every record of an announcement is owned by the service type (PTR), the instance name (SRV, TXT, NSEC) or the host name (A, AAAA) -/
 theorem C09_announce_owners (svc : Svc) (r : Rec) (h : r ∈ (broadcastPkt svc none true).answers) :
